@@ -13,11 +13,11 @@
 /* mpt_linepart_code is replaced by its contract (proved in unit linepart.code): any code in [0,65535] for a
  * fraction, negative otherwise; the fraction itself (a floating point quotient) is not inspected here, which
  * also keeps the division circuits out of the formula */
-int h_linepart_code_nd(void) { int nd_code; __CPROVER_assume(nd_code >= -2 && nd_code <= 65535); return nd_code; }
+int h_linepart_code_nd(void) { int code; V_ND(int, code); __CPROVER_assume(code >= -2 && code <= 65535); return code; }
 
 void harness(void)
 {
-	double in_v[NPT]; IN(double, in_min); IN(double, in_max); IN(size_t, in_len); IN(int, in_has_range);
+	double in_v[NPT]; IN(double, in_min); IN(double, in_max); IN(size_t, in_len); IN(int, in_has_range); V_FILL(in_v);
 	MPT_STRUCT(range) rg; MPT_STRUCT(linepart) pt; size_t pos = 0, i, drawn[NPT], consumed = 0; int parts = 0;
 	V_REQ(in_len <= NPT && in_min == in_min && in_max == in_max && in_min <= in_max);
 	for (i = 0; i < NPT; i++) { V_REQ(in_v[i] == in_v[i]); drawn[i] = 0; }   /* real values: no NaN */
